@@ -44,8 +44,10 @@ def c19_1(ctx):
     h = _exit_guard(ctx, vc, lambda t: 'default_origin' in t and "zone['start']" in t, 'wellformed:origin-in-GLOBAL', 'an origin below the start of a redefined GLOBAL zone is rejected')
     for i in h:
         res = resolver(ctx, vc, inline=False)
-        ok = to_cnf(i.test, True, res) == [frozenset({lit_cmp(ctx, vc, "self.default_origin < zone['start']", res)})]
-        cl = facts_at(ctx, vc, i, res)
+        want_ = frozenset({lit_cmp(ctx, vc, "self.default_origin < zone['start']", res)})
+        cl = facts_at(ctx, vc, i.body[0], res)
+        mine = to_cnf(i.test, True, res)
+        ok = want_ in mine and all(c == want_ or "'GLOBAL'" in describe_facts([c]) for c in mine)
         ok = ok and any("'GLOBAL'" in describe_facts([c]) for c in cl)
         ctx.check(ok, 'wellformed:origin-in-GLOBAL:exact', vc.site(i), 'rejected exactly when origin < GLOBAL.start', unparse(i.test))
     init = ctx.repo.func(MODEL + '.__init__')
